@@ -340,6 +340,14 @@ def light(e, kind, ch, memo):
             return z3.IntVal(0)
     if kind == z3.Z3_OP_EQ and _is(ch[0], z3.Z3_OP_SEQ_UNIT) and _is(ch[1], z3.Z3_OP_SEQ_UNIT):
         return ch[0].children()[0] == ch[1].children()[0]
+    if kind == z3.Z3_OP_SEQ_CONTAINS and _is(ch[1], z3.Z3_OP_SEQ_UNIT) and not z3.is_string(ch[0]):
+        # a one-element needle cannot straddle two parts: contains(a ++ b, [y]) == contains(a, [y]) or contains(b, [y])
+        if _is(ch[0], z3.Z3_OP_SEQ_CONCAT):
+            return z3.Or([rewrite(z3.Contains(p, ch[1]), memo) for p in ch[0].children()])
+        if _is(ch[0], z3.Z3_OP_SEQ_UNIT):
+            return ch[0].children()[0] == ch[1].children()[0]
+        if _is(ch[0], z3.Z3_OP_SEQ_EMPTY):
+            return z3.BoolVal(False)
     return None
 
 
@@ -359,11 +367,59 @@ def to_smt2(hyps, neg_goal):
     return s.to_smt2()
 
 
+def open_hyps(hyps, n=[0]):
+    """Logical clean-up of the hypothesis list (all steps are equivalences or sound weakenings of nothing):
+    unit propagation of literal facts through implications / iff with a quantified side, skolemisation of top-level existential hypotheses."""
+    for _ in range(3):
+        lits = {}
+        for h in hyps:
+            if z3.is_const(h) and h.sort() == z3.BoolSort() and h.decl().kind() == z3.Z3_OP_UNINTERPRETED:
+                lits[h.get_id()] = (h, True)
+            elif z3.is_not(h) and z3.is_const(h.arg(0)) and h.arg(0).decl().kind() == z3.Z3_OP_UNINTERPRETED:
+                lits[h.arg(0).get_id()] = (h.arg(0), False)
+        out = []
+        changed = False
+        for h in hyps:
+            r = h
+            if z3.is_implies(h):
+                a, b = h.children()
+                neg = z3.is_not(a)
+                atom = a.arg(0) if neg else a
+                if z3.is_const(atom) and atom.get_id() in lits:
+                    val = lits[atom.get_id()][1] != neg
+                    r = b if val else z3.BoolVal(True)
+            elif z3.is_eq(h) and h.arg(0).sort() == z3.BoolSort():
+                a, b = h.children()
+                for x, y in ((a, b), (b, a)):
+                    if z3.is_const(x) and x.get_id() in lits and _has_quant(y):
+                        r = y if lits[x.get_id()][1] else z3.Not(y)
+                        break
+            if r is not h:
+                changed = True
+            if z3.is_quantifier(r) and not r.is_forall():
+                n[0] += 1
+                consts = [z3.Const("%s!ex%d" % (r.var_name(i), n[0]), r.var_sort(i)) for i in range(r.num_vars())]
+                r = z3.substitute_vars(r.body(), *reversed(consts))
+                changed = True
+            elif z3.is_not(r) and z3.is_quantifier(r.arg(0)):
+                u = _neg_exists_as_forall(r) if not r.arg(0).is_forall() else None
+                if u is not None:
+                    r = u
+                    changed = True
+            if not z3.is_true(r):
+                out.append(r)
+        hyps = flatten_and(out)
+        if not changed:
+            break
+    return hyps
+
+
 def prepare(ob):
     """-> list of sub-problems: dict(full=smt2, ground=smt2)"""
     _MEMO.clear()
     subs = []
     hyps0 = [h for h in flatten_and([norm(h) for h in flatten_and(ob.hyps)]) if not z3.is_true(h)]
+    hyps0 = open_hyps(hyps0)
     if ob.expect == "sat":
         q = [h for h in hyps0 if not _has_quant(h)]
         return [{"full": to_smt2(hyps0, z3.BoolVal(True)), "ground": to_smt2(q, z3.BoolVal(True))}]
